@@ -15,11 +15,14 @@ import (
 
 // Ctx is what a rule sees.
 type Ctx struct {
-	M    *core.Module // the SDK module (schema, atp, plugin)
-	Gen  *core.Module // the code generator module (nil unless the property needs it)
-	R    *core.Report
-	Tier string
-	Prop string
+	termCache     map[*ssa.Function]*termSum
+	fieldTypes    map[*types.Var][]types.Type
+	fieldTypesTop map[*types.Var]bool
+	M             *core.Module // the SDK module (schema, atp, plugin)
+	Gen           *core.Module // the code generator module (nil unless the property needs it)
+	R             *core.Report
+	Tier          string
+	Prop          string
 
 	lockCache  *lockInfo
 	rolesCache *atpRoles
